@@ -18,12 +18,9 @@ pub enum Node {
 
 pub type Snap = BTreeMap<String, Node>;
 
-fn lossy(p: &Path) -> String {
-    let b = p.as_os_str().as_bytes();
-    match std::str::from_utf8(b) {
-        Ok(s) => s.to_string(),
-        Err(_) => format!("hex:{}", crate::util::hex(b)),
-    }
+pub fn lossy(p: &Path) -> String {
+    // injective, printable rendering of an arbitrary path ('/' is kept)
+    p.as_os_str().as_bytes().escape_ascii().to_string()
 }
 
 /// Snapshot of everything below `root` (not following symlinks). Keys are relative paths.
